@@ -14,8 +14,10 @@ import (
 
 	pikecache "github.com/vicanso/pike/cache"
 	pikeconfig "github.com/vicanso/pike/config"
+	pikelocation "github.com/vicanso/pike/location"
 	pikeserver "github.com/vicanso/pike/server"
 	pikestore "github.com/vicanso/pike/store"
+	pikeupstream "github.com/vicanso/pike/upstream"
 )
 
 // ---------------------------------------------------------------------------------
@@ -704,6 +706,9 @@ func (e *Engine) crashRestart(i int, op *Op) {
 		delete(e.listeners, k)
 	}
 	atomic.StoreInt32(&e.mode, 0)
+	pikeupstream.ResetWithOnStats(nil, nil)
+	pikelocation.Reset(nil)
+	resetCompressDefaults()
 	e.epoch++
 	// restart with the current configuration on the same store
 	cfg := &e.plan.Configs[e.curCfg]
